@@ -46,14 +46,17 @@ def make_replay(block, ops=None):
     return "\n".join(head + (ops if ops is not None else ops_of(block)) + ["E"]) + "\n"
 
 
-def execute_replay(replay_text, tag="replay"):
-    """Run a replay against the real library, then the model+monitors; returns (trace, model_output)."""
+def execute_replay(replay_text, tag="replay", http=None):
+    """Run a replay against the real library, then the model+monitors; returns (trace, model_output).
+    Transport: real HTTP on loopback if `http` (or if the replay text says `# transport=http`), network hooks otherwise."""
+    if http is None:
+        http = "# transport=http" in replay_text
     os.makedirs(WORK, exist_ok=True)
     rp = os.path.join(WORK, "%s.%d.ops" % (tag, os.getpid()))
     tp = rp + ".trace"
     with open(rp, "w") as f:
         f.write(replay_text)
-    run([DRIVE_BIN, "--replay", rp, "--out", tp], check=True)
+    run([DRIVE_BIN, "--replay", rp, "--out", tp] + (["--http"] if http else []), check=True)
     trace = open(tp).read()
     out = run([MODEL_BIN, "replay"], inp=trace, check=True).stdout
     os.unlink(rp)
@@ -84,13 +87,13 @@ def normalize_why(why):
     return re.sub(r"\d+", "N", why)
 
 
-def shrink(block, prop, max_rounds=200):
+def shrink(block, prop, max_rounds=200, http=False):
     """ddmin-style: drop ops while the implementation trace is still rejected by `prop`'s monitor."""
     ops = ops_of(block)
 
     def fails(cand):
         # stale-file indices refer to positions; dropping ops invalidates them, so map them to nop
-        _, out = execute_replay(make_replay(block, cand), "shrink")
+        _, out = execute_replay(make_replay(block, cand), "shrink", http=http)
         _, jf, bads, _ = verdicts(out)
         return (not bads) and any(j["prop"] == prop and j["side"] == "impl" for j in jf)
 
